@@ -19,12 +19,14 @@ serializers = {
 }
 
 def dictify_complex_values(data: dict) -> dict:
+    data = dict(data) # the caller's dictionary is not rewritten
     for key, value in data.items():
         if isinstance(value, complex):
             data[key] = {'real': value.real, 'imag': value.imag}
     return data
 
 def undictify_complex_values(data: dict) -> dict:
+    data = dict(data) # the caller's dictionary is not rewritten
     for key, value in data.items():
         if isinstance(value, dict) and sorted(list(value.keys())) == sorted(['real', 'imag']):
             data[key] = complex(value['real'], value['imag'])
@@ -53,10 +55,7 @@ def undictify_all_complex_values(data):
         return [undictify_complex_values({'element': undictify_all_complex_values(v)})['element'] for v in data]
     if not isinstance(data, dict):
         return data
-    for key, value in data.items():
-        if isinstance(value, dict) or isinstance(value, list):
-            data[key] = undictify_all_complex_values(value)
-    return undictify_complex_values(data)
+    return undictify_complex_values({key: undictify_all_complex_values(value) if isinstance(value, (dict, list)) else value for key, value in data.items()})
 
 def serialize(data: T, format: str, dict_processor: Callable[[T], dict] = dictify_all_complex_values) -> str:
     serializer = serializers.get(format, None)
